@@ -137,6 +137,10 @@ def compare_recipes(ctx, cases, family="recipe"):
 def oracle(ctx, deep):
     ctx.searched = "Allowed/Satisfies re-stated in Python from the property text, applied to every real output and every Alphabet() of the run"
     for meta, a, b in getattr(ctx, "gen_results", []):
+        if a and "RETURNED-PASSWORD-CHANGED-BY-A-LATER-CALL" in a:
+            ctx.violations.append({"recipe": meta["recipe"], "line": chargen.chargen_line(meta["_recipe"], meta["budget"], meta["_words"]), "observed": a[:300],
+                                   "finding_key": "C03-held", "what": "a password returned earlier no longer has its tokens after a later Generate call on the same recipe"})
+            continue
         d = chargen.parse_password(a)
         if d is None or d["outcome"] != "ok":
             continue
